@@ -503,4 +503,125 @@ def item_generate_chunks(repo, out):
         out.append('Definition %s : bool := %s.' % (name, 'true' if holes[key] == 'ceil' else 'false'))
 
 
-ITEMS = [item_chunk_names, item_dask_names, item_npy_body, item_generate_chunks]
+# ---------------------------------------------------------------------------------------------------
+# _prune_chunks (whole body pinned; the two drop conditions are translated and USED by Model/Chunks.v), the offset shim
+# and the block -> slices mapping of _put_map_blocks / the getter of get_dask_array (pinned)
+
+_PRUNE_TEMPLATE = """
+chunks = [list(c) for c in chunks]
+shape = [sum(c) for c in chunks]
+index = list(da.slicing.normalize_index(index, shape))
+if not all(isinstance(idx, slice) and idx.step in (1, None) for idx in index):
+    raise IndexError(__MSG__)
+offset = list(offset) if offset else [0] * len(shape)
+for axis in range(len(shape)):
+    if index[axis] == slice(None):
+        continue
+    start, stop, step = index[axis].indices(shape[axis])
+    assert step == 1
+    start_chunk = 0
+    while start_chunk < len(chunks[axis]) - 1 and __FRONT__:
+        c = chunks[axis][start_chunk]
+        offset[axis] += c
+        start -= c
+        stop -= c
+        shape[axis] -= c
+        start_chunk += 1
+    stop_chunk = len(chunks[axis])
+    while stop_chunk > start_chunk + 1 and __BACK__:
+        stop_chunk -= 1
+        c = chunks[axis][stop_chunk]
+        shape[axis] -= c
+    chunks[axis] = chunks[axis][start_chunk:stop_chunk]
+    if not chunks[axis]:
+        chunks[axis] = (0,)
+    index[axis] = slice(start, stop)
+chunks = tuple(tuple(c) for c in chunks)
+index = tuple(index)
+offset = tuple(offset)
+return chunks, index, offset
+"""
+
+_SHIM_TEMPLATE = """
+def func_with_offset(array_name, slices, *args, **kwargs):
+    offset_slices = tuple(slice(s.start + i, s.stop + i) for (s, i) in zip(slices, offset))
+    return func(array_name, offset_slices, *args, **kwargs)
+return func_with_offset
+"""
+
+_PUT_BLOCK_TEMPLATE = """
+put = store.put_chunk_noraise
+if offset:
+    put = _add_offset_to_slices(put, offset)
+slices = tuple(slice(*loc) for loc in block_info[0]["array-location"])
+success = put(array_name, slices, chunk)
+singleton_shape = chunk.ndim * (1,)
+return np.full(singleton_shape, success)
+"""
+
+
+def _nodoc(body):
+    """Statements without docstrings (also those of nested function definitions)."""
+    out = []
+    for st in body:
+        if isinstance(st, ast.Expr) and isinstance(st.value, ast.Constant) and isinstance(st.value.value, str):
+            continue
+        if isinstance(st, ast.FunctionDef):
+            st.body = _nodoc(st.body)
+        out.append(st)
+    return out
+
+
+def _module_func(tree, name):
+    fn = [n for n in tree.body if isinstance(n, ast.FunctionDef) and n.name == name]
+    if len(fn) != 1:
+        raise TranslateError('%s not found' % name)
+    return fn[0]
+
+
+def item_prune_and_shims(repo, out):
+    rel = 'katdal/chunkstore.py'
+    tree = _parse(repo, rel)
+    fp = _module_func(tree, '_prune_chunks')
+    if [a.arg for a in fp.args.args] != ['chunks', 'index', 'offset'] or [ast.unparse(d) for d in fp.args.defaults] != ['()']:
+        raise TranslateError('_prune_chunks: unexpected signature')
+    holes = {}
+    _match(_nodoc(fp.body), ast.parse(_PRUNE_TEMPLATE).body, holes, '_prune_chunks')
+    c1 = ast.dump(ast.parse('chunks[axis][start_chunk]', mode='eval').body)
+    out.append('Definition cs_prune_front_drops (c start : Z) : bool := %s.'
+               % _bexpr(holes['FRONT'], {'start': 'start'}, '_prune_chunks (first loop)',
+                        special=lambda n: 'c' if ast.dump(n) == c1 else None))
+    c2 = ast.dump(ast.parse('chunks[axis][stop_chunk - 1]', mode='eval').body)
+    sh = ast.dump(ast.parse('shape[axis]', mode='eval').body)
+    out.append('Definition cs_prune_back_drops (c shape stop : Z) : bool := %s.'
+               % _bexpr(holes['BACK'], {'stop': 'stop'}, '_prune_chunks (second loop)',
+                        special=lambda n: 'c' if ast.dump(n) == c2 else ('shape' if ast.dump(n) == sh else None)))
+    fs = _module_func(tree, '_add_offset_to_slices')
+    if [a.arg for a in fs.args.args] != ['func', 'offset']:
+        raise TranslateError('_add_offset_to_slices: unexpected signature')
+    _match(_nodoc(fs.body), ast.parse(_SHIM_TEMPLATE).body, {}, '_add_offset_to_slices')
+    fb = _module_func(tree, '_put_map_blocks')
+    if ([a.arg for a in fb.args.args] != ['chunk', 'block_info', 'store', 'array_name', 'offset']
+            or [ast.unparse(d) for d in fb.args.defaults] != ['None', 'None', 'None', '()']):
+        raise TranslateError('_put_map_blocks: unexpected signature')
+    _match(_nodoc(fb.body), ast.parse(_PUT_BLOCK_TEMPLATE).body, {}, '_put_map_blocks')
+    # get_dask_array: the shim is installed right after the pruning block iff any(offset); the getter passes the slices on
+    cls = _class(tree, 'ChunkStore', rel)
+    fg = _func(cls, 'get_dask_array', rel)
+    prune = [i for i, n in enumerate(fg.body) if isinstance(n, ast.If) and ast.unparse(n.test) == 'index']
+    want = ast.dump(ast.parse('if any(offset):\n    getter = _add_offset_to_slices(getter, offset)').body[0])
+    if len(prune) != 1 or prune[0] + 1 >= len(fg.body) or ast.dump(fg.body[prune[0] + 1]) != want:
+        raise TranslateError('get_dask_array: `if any(offset): getter = _add_offset_to_slices(getter, offset)` does not '
+                             'follow the pruning block')
+    if not ast.unparse(fg.body[-1]) == 'return array[index]':
+        raise TranslateError('get_dask_array does not end with `return array[index]`')
+    ga = _func(_class(tree, '_ArrayLikeGetter', rel), '__getitem__', rel)
+    gbody = _nodoc(ga.body)
+    if len(gbody) != 1 or ast.unparse(gbody[0]) != 'return self.getter(self.array_name, slices, self.dtype, **self.kwargs)':
+        raise TranslateError('_ArrayLikeGetter.__getitem__ does not pass the slices on to the getter unchanged')
+    gi = _func(_class(tree, '_ArrayLikeGetter', rel), '__init__', rel)
+    if not any(ast.unparse(n) == 'self.shape = tuple((sum(c) for c in chunks))' for n in gi.body):
+        raise TranslateError('_ArrayLikeGetter.__init__: shape is not tuple(sum(c) for c in chunks)')
+
+
+ITEMS = [item_chunk_names, item_dask_names, item_npy_body, item_generate_chunks, item_prune_and_shims]
